@@ -14,10 +14,11 @@ import ast
 from fractions import Fraction
 
 from sa import dataflow as df
-from sa.absint import AbsInt
+from sa.absint import AbsInt  # noqa: F401
+from sa.forward import Forward
 
 FREE = ("free", )
-OP = ("op", )
+OP = ("op", Fraction(0))
 GUARD_MAX = 1e-20
 
 SAME_AS_FIRST = {"norm", "abs", "conj", "sum", "mean", "max", "min", "copy", "cast", "reshape", "expand", "moveaxis", "permute", "stop_gradients", "real", "nan_to_num", "move_to",
@@ -26,8 +27,33 @@ ZERO_LIKE = {"zeros", "zeros_like"}
 DEG0 = {"ones", "ones_like", "eye", "arange", "any", "all", "isfinite", "finfo", "get_device", "PRNGKey", "randn", "sign", "argsort", "logical_not", "logical_or", "logical_and"}
 
 
-def deg(d):
-    return ("deg", Fraction(d))
+def deg(*ds):
+    """element-wise alternatives: every element of the value is homogeneous of one of these degrees"""
+    return ("deg", frozenset(Fraction(d) for d in ds))
+
+
+BOTTOM = ("deg", frozenset())  # no information yet (value of a loop-carried name met again while it is being evaluated)
+
+
+def op(d=0):
+    return ("op", Fraction(d))
+
+
+MAX_DEGS = 6
+
+
+def degset(xs):
+    """widening: a value that keeps collecting degrees through loop rounds has no useful homogeneity description"""
+    xs = frozenset(xs)
+    return ("deg", xs) if len(xs) <= MAX_DEGS else ("unknown", "more than %d degrees" % MAX_DEGS)
+
+
+def single(v):
+    return is_deg(v) and len(v[1]) == 1
+
+
+def the(v):
+    return next(iter(v[1]))
 
 
 def mixed(why):
@@ -41,10 +67,10 @@ def is_deg(v):
 def show(v):
     if v == FREE:
         return "any degree (exact zero / guard)"
-    if v == OP:
-        return "operator"
+    if isinstance(v, tuple) and v and v[0] == "op":
+        return "operator" + (f" of degree {v[1]}" if v[1] else "")
     if is_deg(v):
-        return f"degree {v[1]}"
+        return ("degree " + " or ".join(str(x) for x in sorted(v[1]))) if v[1] else "no information"
     if isinstance(v, tuple) and v and v[0] == "mixed":
         return f"MIXED ({v[1]})"
     if isinstance(v, tuple) and v and v[0] == "tuple":
@@ -52,60 +78,40 @@ def show(v):
     return f"unknown ({v[1] if isinstance(v, tuple) and len(v) > 1 else v})"
 
 
-class LoopMixin:
-    # ---- instrumented while loops:  while_fn(cond_fun=..., body_fun=..., init_val=...)
-    def call_unknown(self, node, ctx):
+class LoopCalls:
+    """xnp.while_loop_winfo(...) returns a loop runner that is later called with (cond_fun, body_fun, init_val)"""
+    WHILEFN = ("whilefn", )
+
+    def loop_parts(self, node):
         kw = {k.arg: k.value for k in node.keywords if k.arg}
-        names = ("cond_fun", "body_fun", "init_val")
-        parts = [kw.get(n) for n in names]
+        parts = [kw.get(n) for n in ("cond_fun", "body_fun", "init_val")]
         if all(p is None for p in parts) and len(node.args) == 3:
             parts = list(node.args)
-        if all(p is not None for p in parts) and isinstance(node.func, ast.Name):
+        return parts if all(p is not None for p in parts) else None
+
+    def call_opaque(self, node, fval, ctx):
+        parts = self.loop_parts(node)
+        if parts is not None and (fval == self.WHILEFN or isinstance(node.func, ast.Name)):
             vals = [self.ev(p, ctx) for p in parts]
-            if all(isinstance(v, tuple) and v and v[0] == "function" for v in vals[:2]):
-                return self.run_loop(vals[0], vals[1], vals[2], ctx)
+            if all(isinstance(v, tuple) and v and v[0] in ("closure", "function") for v in vals[:2]):
+                return self.run_while(vals[0], vals[1], vals[2], ctx)
         return self.unknown(ast.unparse(node.func)[:30] + "()")
 
-    def fn_by_qual(self, qual):
-        def walk(f):
-            yield f
-            for g in f.nested.values():
-                yield from walk(g)
-        for top in self.idx.funcs.values():
-            for f in walk(top):
-                if f.qual == qual:
-                    return f
-        return None
 
-    def apply_fn(self, fval, arg, ctx):
-        f = self.fn_by_qual(fval[1]) if isinstance(fval, tuple) and fval and fval[0] == "function" else None
-        if f is None or not f.params:
-            return self.unknown("loop function")
-        rets = [r.value for r in df.returns(f.node) if r.value is not None]
-        if not rets:
-            return self.unknown("no return")
-        return self.join([self.eval_in(f, r, {f.params[0]: arg}, ctx.depth + 1) for r in rets])
-
-    def run_loop(self, cond, body, init, ctx):
-        state = init
-        for _ in range(4):
-            nxt = self.join([state, self.apply_fn(body, state, ctx)])
-            if nxt == state:
-                break
-            state = nxt
-        self.apply_fn(cond, state, ctx)  # records the comparisons of the stopping test on the loop invariant
-        return state
-
-
-class Degree(LoopMixin, AbsInt):
+class Degree(LoopCalls, Forward):
     AUG_KEEPS_VALUE = False
     ENV_REBINDING = True
+    MAX_DEPTH = 60
 
     def __init__(self, idx, seeds):
         """seeds: {(id(function node), parameter name): value}"""
         super().__init__(idx)
         self.seeds = seeds
         self.comparisons = []  # (node, fi, left value, right value)
+        self.floors = []  # (node, fi, guarded value, bound)   for clip / maximum / minimum
+
+    def bottom(self):
+        return BOTTOM
 
     def eval_module_value(self, r):
         if isinstance(r.val, ast.Constant):
@@ -132,9 +138,17 @@ class Degree(LoopMixin, AbsInt):
         if b == FREE:
             return a
         if is_deg(a) and is_deg(b):
-            return a if a == b else mixed(f"{what} of a term of degree {a[1]} and a term of degree {b[1]}")
-        if a == OP and b == OP:
-            return OP
+            if a == b or not b[1]:
+                return a
+            if not a[1]:
+                return b
+            if what in ("join", "store"):
+                return degset(a[1] | b[1])  # alternatives / different elements of one array
+            if single(a) and single(b):
+                return mixed(f"{what} of a term of degree {the(a)} and a term of degree {the(b)}")
+            return degset(a[1] | b[1])  # element-wise alternatives on either side: no claim
+        if a[0] == "op" and b[0] == "op":
+            return a if a == b else self.unknown(f"{what} of operators of different degree")
         return self.unknown(f"{what} of {show(a)} and {show(b)}")
 
     def join(self, vals):
@@ -144,7 +158,7 @@ class Degree(LoopMixin, AbsInt):
         out = None
         for v in vals:
             out = v if out is None else self.unify(out, v, "join")
-        return out if out is not None else self.unknown("empty")
+        return out if out is not None else BOTTOM
 
     def mul(self, a, b, sign=1):
         for x in (a, b):
@@ -155,12 +169,14 @@ class Degree(LoopMixin, AbsInt):
                 return x
         if a == FREE or (b == FREE and sign == 1):
             return FREE
-        if a == OP:
-            return b if sign == 1 else self.unknown("division by an operator")
-        if b == OP:
-            return a if sign == 1 else self.unknown("division by an operator")
+        if a[0] == "op" and b[0] == "op":
+            return ("op", a[1] + sign * b[1])
+        if a[0] == "op":
+            return degset(x + a[1] for x in b[1]) if sign == 1 and is_deg(b) else self.unknown("division by an operator")
+        if b[0] == "op":
+            return degset(x + b[1] for x in a[1]) if sign == 1 and is_deg(a) else self.unknown("division by an operator")
         if is_deg(a) and is_deg(b):
-            return ("deg", a[1] + sign * b[1])
+            return degset(x + sign * y for x in a[1] for y in b[1])
         if is_deg(a) and b == FREE:  # division by a guard constant
             return a
         return self.unknown(f"product of {show(a)} and {show(b)}")
@@ -213,7 +229,7 @@ class Degree(LoopMixin, AbsInt):
         if isinstance(op, ast.Pow):
             e = node.right
             if isinstance(e, ast.Constant) and isinstance(e.value, (int, float)) and is_deg(left):
-                return ("deg", left[1] * Fraction(e.value).limit_denominator(64))
+                return ("deg", frozenset(x * Fraction(e.value).limit_denominator(64) for x in left[1]))
             if left == FREE:
                 return FREE
             return self.unknown("power")
@@ -246,15 +262,28 @@ class Degree(LoopMixin, AbsInt):
             return args[0] if args else deg(0)
         if name == "sqrt":
             a = args[0] if args else self.unknown("sqrt")
-            return ("deg", a[1] / 2) if is_deg(a) else a
+            return ("deg", frozenset(x / 2 for x in a[1])) if is_deg(a) else a
         if name == "where" and len(args) == 3:
             return self.unify(args[1], args[2], "selection")
+        if name in ("maximum", "minimum", "clip") and args:
+            bounds = list(args[1:]) + [v for k, v in kwargs.items() if k in ("a_min", "a_max", "min", "max")]
+            out = args[0]
+            for b in bounds:
+                self.floors.append((node, ctx.fi, args[0], b))
+                out = self.unify(out, b, "join")
+            return out
+        if name == "update_array" and len(args) >= 2:
+            return self.unify(args[0], args[1], "store")
         if name in SAME_AS_FIRST and args:
-            if name in ("maximum", "minimum", "clip") and len(args) > 1:
-                return self.unify(args[0], args[1], name)
             return args[0]
         if name == "while_loop" and len(args) >= 3:
-            return self.run_loop(args[0], args[1], args[2], ctx)
+            return self.run_while(args[0], args[1], args[2], ctx)
+        if name == "for_loop" and len(args) >= 4:
+            return self.run_for(args[2], args[3], ctx, index_value=deg(0))
+        if name == "while_loop_winfo":
+            return ("tuple", (self.WHILEFN, self.unknown("loop info")))
+        if name == "jit" and args:
+            return args[0]
         return self.unknown(f"xnp.{name}")
 
     def call_builtin(self, name, node, args, kwargs, ctx):
@@ -265,10 +294,14 @@ class Degree(LoopMixin, AbsInt):
         return self.unknown(f"{name}()")
 
     def call_class(self, ci, node, args, kwargs, ctx):
-        return OP if any(c.name == "LinearOperator" for c in self.idx.mro(ci)) else self.unknown(f"{ci.name}()")
+        if any(c.name == "LinearOperator" for c in self.idx.mro(ci)):
+            if args and single(args[0]):
+                return ("op", the(args[0]))
+            return OP
+        return self.unknown(f"{ci.name}()")
 
     def call_dispatch(self, fname, node, args, kwargs, ctx):
-        return OP if args and args[0] == OP else self.unknown(f"{fname}()")
+        return args[0] if args and isinstance(args[0], tuple) and args[0] and args[0][0] == "op" and fname in ("lazify", "transpose", "adjoint") else self.unknown(f"{fname}()")
 
     def call_method(self, recv, name, node, args, kwargs, ctx):
         if name in ("reshape", "conj", "sum", "mean", "copy", "astype", "to", "real", "max", "min", "squeeze", "flatten", "ravel", "transpose"):
@@ -277,7 +310,7 @@ class Degree(LoopMixin, AbsInt):
 
 
 
-class Origin(LoopMixin, AbsInt):
+class Origin(LoopCalls, Forward):
     """where a value comes from: ('param', function, name) for an untouched parameter of a seeded function, ('derived', how) for
     anything computed from it (min(...), arithmetic); used for the iteration cap of the stopping test"""
     ENV_REBINDING = True
@@ -325,6 +358,14 @@ class Origin(LoopMixin, AbsInt):
         return ("derived", f"`{ast.unparse(node)}`"[:80])
 
     def call_xnp(self, name, node, args, kwargs, ctx):
+        if name == "while_loop" and len(args) >= 3:
+            return self.run_while(args[0], args[1], args[2], ctx)
+        if name == "for_loop" and len(args) >= 4:
+            return self.run_for(args[2], args[3], ctx)
+        if name == "while_loop_winfo":
+            return ("tuple", (self.WHILEFN, self.unknown("loop info")))
+        if name == "jit" and args:
+            return args[0]
         return ("derived", f"`{ast.unparse(node)}`"[:80])
 
     def other(self, node, ctx):
@@ -352,12 +393,10 @@ def solver_scale_obligations(idx, rep, routine, cond_fns, rule, construct, count
     if rhs is None:
         rep.undecided(rule, f"{construct}:scale", f"no right-hand-side parameter among {routine.params}")
         return
-    seeds = {}
-    for p in routine.params:
-        seeds[(id(routine.node), p)] = deg(1) if p == rhs else FREE if p in GUESS_NAMES else OP if p in OPERATOR_NAMES else deg(0)
-    d = Degree(idx, seeds)
-    rets = [r for r in df.returns(routine.node) if r.value is not None]
-    vals = [d.eval_in(routine, r.value) for r in rets]
+    bound = {p: (deg(1) if p == rhs else FREE if p in GUESS_NAMES else OP if p in OPERATOR_NAMES else deg(0)) for p in routine.params}
+    d = Degree(idx, {})
+    rets = [r for r in df.returns(routine.node) if r.value is not None][-1:]
+    vals = [d.run_function(routine, bound)]
     cond_ids = {id(f.node) for f in cond_fns}
     seen = set()
     n = 0
@@ -372,7 +411,7 @@ def solver_scale_obligations(idx, rep, routine, cond_fns, rule, construct, count
         if bad is not None:
             rep.refuted(rule, f"{construct}:stopping-test#{n}", f"`{text}` compares {show(l)} with {show(r)}: the threshold is not a homogeneous function of the right-hand side, so the "
                         f"tolerance is absolute for small ||{rhs}|| and the solve is not scale-invariant", detail="mixed", locs=loc)
-        elif (is_deg(l) or l == FREE) and (is_deg(r) or r == FREE):
+        elif (single(l) or l == FREE) and (single(r) or r == FREE):
             ok = l == FREE or r == FREE or l == r
             rep.decide(ok, rule, f"{construct}:stopping-test#{n}", f"`{text}` compares {show(l)} with {show(r)}" + ("" if ok else f": residual and threshold scale differently with ||{rhs}||"),
                        detail="" if ok else "degree", locs=loc)
@@ -383,8 +422,8 @@ def solver_scale_obligations(idx, rep, routine, cond_fns, rule, construct, count
     for r, v in zip(rets, vals):
         first = v[1][0] if isinstance(v, tuple) and v and v[0] == "tuple" and v[1] else v
         loc = [idx.loc(routine.module, r)]
-        if is_deg(first):
-            ok = first[1] == 1
+        if single(first):
+            ok = the(first) == 1
             rep.decide(ok, rule, f"{construct}:solution", f"the returned solution has {show(first)} in `{rhs}`" + ("" if ok else ": it must scale linearly with the right-hand side (normalisation not undone / applied twice)"),
                        detail="" if ok else "degree", locs=loc)
         elif isinstance(first, tuple) and first and first[0] == "mixed":
@@ -395,8 +434,7 @@ def solver_scale_obligations(idx, rep, routine, cond_fns, rule, construct, count
     if cap_param in routine.params:
         roots = {id(routine.node)}
         o = Origin(idx, roots)
-        for r in rets:
-            o.eval_in(routine, r.value)
+        o.run_function(routine, {p: ("param", routine.short, p) for p in routine.params})
         caps = [(node, fi, l, r) for node, fi, l, r in o.comparisons if id(fi.node) in cond_ids and any(isinstance(x, tuple) and x and x[0] == "param" and x[2] == cap_param for x in (l, r))]
         derived = [(node, fi, l, r) for node, fi, l, r in o.comparisons if id(fi.node) in cond_ids and any(isinstance(x, tuple) and x and x[0] == "derived" and cap_param in x[1] for x in (l, r))]
         if caps:
@@ -409,3 +447,65 @@ def solver_scale_obligations(idx, rep, routine, cond_fns, rule, construct, count
                         "with residuals above the tolerance", detail="derived", locs=[idx.loc(fi.module, node)])
         else:
             rep.undecided(rule, f"{construct}:cap-origin", f"no comparison with `{cap_param}` reached in the stopping test")
+
+
+def krylov_floor_obligations(idx, rep, fact, init, rule, helpers=()):
+    """HOMOG in the scale of the OPERATOR (A has degree 1, the start vector degree 0): a Krylov factorisation is invariant
+    under scaling of A (Q unchanged, H / T scaled), so a floor (clip / maximum bound) that guards a quantity of non-zero degree
+    must scale the same way; an absolute floor normalises by the floor instead of the norm for small-scale operators (or loose
+    tolerances) and the basis is no longer orthonormal."""
+    d = Degree(idx, {})
+    init_val = d.run_function(init, {p: deg(0) for p in init.params})
+    env_f = {}
+    for i, p in enumerate(fact.params):
+        env_f[p] = op(1) if i == 0 else (init_val if p in ("init_val", "state", "init") else deg(0))
+    d.run_function(fact, env_f)
+    scope = set()
+
+    def walk(f):
+        scope.add(id(f.node))
+        for g in f.nested.values():
+            walk(g)
+    walk(fact)
+    for h in helpers:
+        walk(h)
+    # one obligation per floor site.  Recordings are judged in evaluation order and only until the first inhomogeneous floor:
+    # once a vector has been divided by max(norm, absolute bound) nothing downstream is homogeneous any more, so later
+    # recordings (further loop rounds) describe the consequences of that floor, not independent defects
+    sites = {}
+    polluted = False
+    for node, fi, x, b in d.floors:
+        if id(fi.node) not in scope:
+            continue
+        st = sites.setdefault(id(node), {"node": node, "fi": fi, "verdict": None, "x": x, "b": b})
+        if polluted or st["verdict"] == "REFUTED":
+            continue
+        if b in (FREE, BOTTOM):
+            st["verdict"] = st["verdict"] or "GUARD"
+        elif is_deg(x) and x[1] and single(b):
+            if any(v != the(b) for v in x[1]):
+                st.update(verdict="REFUTED", x=x, b=b)
+                polluted = True
+            else:
+                st["verdict"] = "PROVED"
+                st.update(x=x, b=b)
+    n = 0
+    for st in sites.values():
+        node, top, x, b = st["node"], st["fi"], st["x"], st["b"]
+        n += 1
+        construct = f"{fact.short}:floor#{n}"
+        loc = [idx.loc(top.module, node)]
+        text = ast.unparse(node)
+        if st["verdict"] == "GUARD":
+            rep.proved(rule, construct, f"`{text}`: the bound is a pure division guard", locs=loc, nontrivial=False)
+        elif st["verdict"] == "PROVED":
+            rep.proved(rule, construct, f"`{text}`: guarded quantity and bound both have {show(b)} in the scale of the operator", locs=loc)
+        elif st["verdict"] == "REFUTED":
+            rep.refuted(rule, construct, f"`{text}`: the guarded quantity has {show(x)} in the scale of the operator, the bound has {show(b)}: an absolute floor. For an operator of small scale "
+                        "(or a loose tolerance) the vector is divided by the floor instead of its norm, so the basis is not orthonormal although no breakdown occurred", detail="absolute",
+                        locs=loc)
+        else:
+            rep.undecided(rule, construct, f"`{text}`: guarded {show(x)}, bound {show(b)}", locs=loc)
+    if not n:
+        rep.note(f"{fact.short}: no clip / maximum / minimum bound in the factorisation loop")
+    return n
